@@ -205,13 +205,16 @@ int main (int argc, char **argv) {
 	double wall = (double) (t1.tv_sec - t0.tv_sec) + 1e-9 * (double) (t1.tv_nsec - t0.tv_nsec);
 
 	std::string fail_dump, fail_trace_hex;
-	int deterministic = 0;
+	int deterministic = 0, failing = 0;
 	if (!ok && g_have_fail) {
 		static char d[1 << 16];
 		interp_result r;
 		for (int k = 0; k < 3; k++) {
 			g_run (g_last_fail.data (), g_last_fail.size (), g_prop, g_family, &r, d, sizeof d);
 			if (strcmp (r.v.sig, g_last_fail_res.v.sig) == 0) deterministic++;
+			// "failing": an owned, unlisted verdict again, whatever its signature (a defect that reads uninitialised or
+			// recycled memory fails every time, but not always with the same symptom)
+			if (r.owned && r.v.kind != RT_V_NONE && !is_suppressed (r.v.sig)) failing++;
 		}
 		fail_dump = d;
 		fail_trace_hex = hex (simrt_last_trace ());
@@ -241,9 +244,9 @@ int main (int argc, char **argv) {
 	for (size_t i = 0; i < C.samples.size (); i++) fprintf (f, "%s\"%s\"", i ? ", " : "", json_escape (C.samples[i]).c_str ());
 	fprintf (f, "],\n");
 	if (!ok) {
-		fprintf (f, "  \"failure\": {\"sig\": \"%s\", \"kind\": \"%s\", \"msg\": \"%s\", \"tape_hex\": \"%s\", \"deterministic\": %d, \"trace_hex\": \"%s\", \"dump\": \"%s\"},\n",
+		fprintf (f, "  \"failure\": {\"sig\": \"%s\", \"kind\": \"%s\", \"msg\": \"%s\", \"tape_hex\": \"%s\", \"deterministic\": %d, \"failing\": %d, \"trace_hex\": \"%s\", \"dump\": \"%s\"},\n",
 			 json_escape (g_last_fail_res.v.sig).c_str (), kind_name (g_last_fail_res.v.kind), json_escape (g_last_fail_res.v.msg).c_str (),
-			 hex (g_last_fail).c_str (), deterministic, fail_trace_hex.c_str (), json_escape (fail_dump).c_str ());
+			 hex (g_last_fail).c_str (), deterministic, failing, fail_trace_hex.c_str (), json_escape (fail_dump).c_str ());
 	}
 	fprintf (f, "  \"end\": true\n}\n");
 	if (out) fclose (f);
